@@ -10,6 +10,12 @@ CONSTANTS
   LegacyPullZero = FALSE
   LegacyTrimRaw = FALSE
   GenDepth = 10
+  Srvs = {1, 2}
+  Ots <- OtsAll
+  Coes <- CoesAll
+  SharedContextTable = FALSE
+  ExpireSessions = FALSE
+  RandArgs = TRUE
   Cover = FALSE
 INVARIANT ImplRefinesReq
 INVARIANT MappingHolds
